@@ -8,25 +8,39 @@ DRIVER = "C15"
 GENERATED = ["uri"]
 SOURCES = ["src/allmydata/uri.py", "src/allmydata/util/base32.py"]
 DESIGN_REF = "DESIGN.md §2 C15"
-TECHNIQUE = ("Lean 4 theorems over an executable byte-level model of every STRING_RE, base32 b2a/a2b, from_string dispatch "
-             "and to_string; regex source texts extracted from uri.py and pinned to the model's pattern data; differential "
-             "correspondence of from_string/to_string/b2a/a2b on generated and mutated cap strings")
-LEVEL_TEXT = ("parse_print, unknown_outside (every accepted string is the canonical serialisation of the returned cap plus an "
-              "enumerated tail) and print_parse_partial are proved in Lean for all byte strings and all well-formed caps of the "
-              "18 kinds; print_parse at full strength is refuted by a proved witness (trailing newline, known finding). The model "
-              "is the repaired grammar of fixes/C15-*.diff and is tied to uri.py by pinned pattern texts plus correspondence.")
-LEVEL_NOTE = ("Lean kernel + standard axioms. Model hand-written; the deterministic matcher is argued (and checked by "
-              "correspondence against the real `re`) to coincide with backtracking search on these patterns. "
-              "print_parse is read modulo one alleged prefix ro./imm., which from_string consumes as context by design.")
-RULE = ("a case is one (string, deep_immutable) pair given to uri.from_string and to the driver, or one cap object given to "
-        "to_string; distinct = distinct (deep, string); non-trivial = the string starts (after an optional ro./imm.) with one "
-        "of the 18 cap prefixes, i.e. it reaches a STRING_RE")
-TRUSTED = ["lean/Tahoe/Uri/Grammar.lean, Caps.lean are hand transcriptions of uri.py / base32.py; Piece lists are tied to the "
-           "regex source by the pinned `render` theorems",
-           "harness/props/_uri_common.py reference grammar (base64 + int from the standard library) used by the monitor"]
+TECHNIQUE = ("Lean 4 theorems over an executable byte-level model of every STRING_RE (patterns as data, rendered back to the "
+             "regex source and pinned to the texts extracted from uri.py), base32 b2a/a2b, decimal print/parse, from_string "
+             "dispatch and to_string; a declarative regex semantics proved equal to the executable matcher; differential "
+             "correspondence of from_string/to_string/b2a/a2b on a fixed corpus, generated and mutated cap strings, and "
+             "parse ORDERS with cold class-level state (module reloads and fresh processes)")
+LEVEL_TEXT = ("Proved in Lean for all byte strings, both contexts and all well-formed caps of the 18 kinds: parse_print / "
+              "parse_print_default (object -> string -> same object); accepted_is_own_text + grammar_complete (the parser accepts "
+              "exactly the declarative grammar: canonical text ++ nothing / one newline / MDMF ':' extension), unknown_outside, "
+              "never_misread, only_one_prefix; matcher_is_regex_semantics + regex_match_unique (the deterministic matcher equals "
+              "the declarative regex semantics of the nine patterns, matches are unique); pattern_* / pattern_flags / file_prefixes "
+              "/ dir_prefixes / alleged_prefixes / dispatch_order pin the working tree's regex texts, prefixes and dispatch order. "
+              "print_parse at full strength is FALSE of code and model (open known finding trailing-newline): refuted by "
+              "print_parse_counterexample(_ssk), proved as print_parse_partial for every input not ending in a newline. "
+              "asWritten_chk_verifier_junk / asWritten_leading_zeros witness the two defects since repaired in /repo "
+              "(commits cf6aab5, de25a62).")
+LEVEL_NOTE = ("Lean kernel + standard axioms. Model hand-written and tied by pinned pattern texts plus correspondence; that "
+              "CPython's `re` implements the declarative regex semantics is trusted (exercised by correspondence). "
+              "print_parse is read modulo one alleged prefix ro./imm., which from_string consumes as context by design. "
+              "Order independence of parsing holds by construction in the model and is correspondence-only on the code side.")
+RULE = ("a case is one (string, deep_immutable) pair given to uri.from_string and to the driver, one string of an ordered "
+        "parse sequence run with cold class state, or one cap object given to to_string; distinct = distinct (deep, string) / "
+        "distinct order prefix; non-trivial = the string starts (after an optional ro./imm.) with one of the 18 cap prefixes, "
+        "i.e. it reaches a STRING_RE")
+TRUSTED = ["lean/Tahoe/Uri/Grammar.lean, Caps.lean are hand transcriptions of uri.py / base32.py; the Piece lists are tied to the "
+           "regex source by the pinned `render` theorems (pattern_*)",
+           "CPython's `re` module implements the declarative semantics `Matches` (Tahoe/Uri/LemmasRegex.lean) on these patterns",
+           "harness/props/_uri_common.py reference grammar (base64 + int from the standard library) used by the monitor",
+           "harness/props/_uri_worker.py (parse orders in a reloaded module / fresh process)"]
 ASSUMPTIONS = ["number fields have at most 4300 digits: beyond that CPython's int()/%d raise ValueError (int-max-str-digits), "
                "which from_string does not catch; the model has unbounded Nat",
-               "k/N/size are non-negative ints and key/hash fields have the lengths the code itself produces (16/32 bytes)",
+               "k/N/size are non-negative ints and key/hash fields have the lengths the code itself produces (16/32 bytes) — "
+               "the well-formedness hypothesis of parse_print",
+               "input is bytes (the UTF-8 encoding step for str input is not modelled)",
                "print_parse is read modulo a single leading ro./imm. (from_string strips it as context, ticket #833)",
                "any ':'-introduced suffix of an MDMF-family cap counts as the extension field the MDMF format allows"]
 
